@@ -11,7 +11,7 @@ import re, posixpath
 import core
 from core import World, parse_fs, Line, hx
 from gen import Gen, mode_line, cfg_line
-import suites
+import suites, docs
 from suites import parse_snap, parse_snap_scan, esc, exp_silent
 
 
@@ -264,6 +264,12 @@ def make_spec(g, allow=()):
     for n, calls in tests:
         if calls and r.random() < 0.3:
             sa[n] = [b'standalone %d of ' % k + n for k in range(1, r.randint(1, 2) + 1)]
+    # one call of some test is a MatchJSON call whose input is not valid JSON (or whose matcher fails): it reports
+    # a failure and still is the test's k-th call - its slot [N - k] is addressed, and so are the slots after it
+    badcall = set()
+    for n, calls in tests:
+        if calls and r.random() < 0.15:
+            badcall.add((n, r.randrange(len(calls))))
     fresh = None
     if b'TestFresh' not in names and r.random() < 0.2:
         fresh = (r.choice(['fresh/dir', sd]), 'neverwritten', r.choice([1, 2]))
@@ -273,7 +279,7 @@ def make_spec(g, allow=()):
     k = r.random()
     crlf = r.choice(suites.CRLF_MODES) if k < 0.15 and not ends else None
     gaps = 0.15 <= k < 0.27 and not ends
-    return dict(cfgs=cfgs, nfiles=nfiles, tests=tests, stale=stale, skipped=skipped, ends=ends, fresh=fresh, sa=sa, crlf=crlf, gaps=gaps,
+    return dict(cfgs=cfgs, nfiles=nfiles, tests=tests, stale=stale, skipped=skipped, ends=ends, fresh=fresh, sa=sa, badcall=sorted(badcall), crlf=crlf, gaps=gaps,
                 count=r.choice([1, 1, 2, 3]), shuffle=r.randrange(1 << 30),
                 stale_files=r.sample(['old_test.snap', 'x.snapshot', 'gone_1.snap', 'a.snap.json'], r.choice([0, 0, 1, 2])),
                 decoys=r.random() < 0.6,
@@ -423,7 +429,13 @@ def render(tag, spec, oracles):
             if n in spec.get('skipped', ()):
                 w.add('skip %d %s' % (texec, ['skip', 'skipf', 'skipnow'][(texec + spec['shuffle']) % 3]))
                 continue
-            for cfgno, v in calls:
+            bad = set(tuple(x) for x in spec.get('badcall', ()))
+            for j, (cfgno, v) in enumerate(calls):
+                if (n, j) in bad:
+                    op = 'json %d %d s %s' % (cfgno, texec, hx(b'{"not json":')) if (j + texec) % 2 else \
+                         'json %d %d s %s %s' % (cfgno, texec, hx(b'{"a":1}'), docs.any_matcher(['zz_missing_zz']))
+                    w.add(op, ('rejected-call-fails-without-writing', suites.exp_one_error_no_write))
+                    continue
                 w.add('snap %d %d %s' % (cfgno, texec, hx(v)), ('prepared-entry-passes', exp_silent))
             for v in (spec.get('sa') or {}).get(n, ()):
                 w.add('sasnap 1 %d %s' % (texec, hx(v)), ('prepared-standalone-file-passes', exp_silent))
@@ -556,6 +568,16 @@ def o_stale_reported(w):
                     return 'stale entry [%s] survives in clean mode' % tid.decode()
                 if not dele and tid not in ids_after:
                     return 'stale entry [%s] removed although the mode does not allow deletion' % tid.decode()
+    for cfgno, entries in w.meta['per'].items():
+        p = file_of(w, cfgno, before)
+        if p is None or not any(live for _, _, live in entries) or any(not live for _, _, live in entries):
+            continue
+        if cfgno in w.meta.get('ends', {}) and w.meta['ends'][cfgno][0] == 'stale':
+            continue
+        if not sorts(spec) and after.get(p) != before[p]:
+            # nothing in this file is obsolete and no sorting was asked for: whatever it holds besides its entries
+            # (a note, blank lines) was not reported, so it may not be removed
+            return 'addressed file %r holds nothing obsolete and needs no sorting, but its bytes changed' % p
     import re as _re
     stale_ids = set(t for es in w.meta['per'].values() for t, _, l in es if not l)
     # an unterminated last entry of a test that is gone may be listed too
